@@ -684,6 +684,36 @@ _C19 = [
      'tie_theorem': 'C19.src_reverse_iter_lines_eq_model',
      'translator': 'py2lean_c19', 'ext': 'py2lean_c19', 'gen_file': 'jsonutils_lines',
      'c19': {'file': {'param': 'file_obj', 'data': 'file_data', 'pos': 'file_pos'}, 'none_params': ['encoding']}},
+    # round 3f, text mode: the SAME function at its other declared kind: `encoding` is the non-empty str 'utf-8' (so
+    # `encoding or file_obj.encoding` is `encoding`), `file_obj` as above; `line.decode(encoding)` = PyRtC19.decodeUtf8?
+    {'module': 'boltons.jsonutils', 'qualname': 'reverse_iter_lines', 'lean_name': 'reverse_iter_lines_text',
+     'params': {'file_data': 'List β', 'file_pos': 'Int', 'blocksize': 'Int', 'preseek': 'Bool'},
+     'tparams': ['β'], 'deceq': ['β'], 'classes': ['PyRtC19.Byte β'],
+     'kind': 'generator', 'result': 'Str', 'raises': True, 'loop_fuel': True,
+     'tie_theorem': 'C19.src_reverse_iter_lines_text_eq_model',
+     'translator': 'py2lean_c19', 'ext': 'py2lean_c19', 'gen_file': 'jsonutils_lines_text',
+     'c19': {'file': {'param': 'file_obj', 'data': 'file_data', 'pos': 'file_pos'}, 'truthy_params': ['encoding'],
+             'codec': 'utf-8'}},
+    # round 3f: JSONLIterator.next on a BINARY file: the stored line iterator `self._line_iter` is the list of the lines it still
+    # yields (bytes), `self.ignore_errors` a bool; `json.loads` is the instance [PyRtC19.JsonLoads β γ] (a pure function of the
+    # line: what the hand model's `parse` assumes); the result is (the object, the lines left)
+    {'module': 'boltons.jsonutils', 'qualname': 'JSONLIterator.next', 'lean_name': 'JSONLIterator_next',
+     'params': {'line_iter': 'List (List β)', 'ignore_errors': 'Bool'},
+     'tparams': ['β', 'γ'], 'deceq': ['β'], 'inhabited': ['γ'], 'classes': ['PyRtC19.Byte β', 'PyRtC19.JsonLoads β γ'],
+     'kind': 'function', 'result': 'γ × List (List β)', 'raises': True, 'loop_fuel': True,
+     'tie_theorem': 'C19.src_jsonl_next_eq_model',
+     'translator': 'py2lean_c19', 'ext': 'py2lean_c19', 'gen_file': 'jsonutils_jsonl',
+     'c19': {'jsonl': {'iter_attr': '_line_iter', 'iter_param': 'line_iter', 'flags': {'ignore_errors': 'ignore_errors'},
+                       'loads': 'json.loads', 'line_kind': 'bytes'}}},
+    # the same method on a TEXT-mode file: the lines are str (an item of β is a code point, [PyRtC19.Byte β] gives its value)
+    {'module': 'boltons.jsonutils', 'qualname': 'JSONLIterator.next', 'lean_name': 'JSONLIterator_next_text',
+     'params': {'line_iter': 'List (List β)', 'ignore_errors': 'Bool'},
+     'tparams': ['β', 'γ'], 'deceq': ['β'], 'inhabited': ['γ'], 'classes': ['PyRtC19.Byte β', 'PyRtC19.JsonLoads β γ'],
+     'kind': 'function', 'result': 'γ × List (List β)', 'raises': True, 'loop_fuel': True,
+     'tie_theorem': 'C19.src_jsonl_next_text_eq_model',
+     'translator': 'py2lean_c19', 'ext': 'py2lean_c19', 'gen_file': 'jsonutils_jsonl_text',
+     'c19': {'jsonl': {'iter_attr': '_line_iter', 'iter_param': 'line_iter', 'flags': {'ignore_errors': 'ignore_errors'},
+                       'loads': 'json.loads', 'line_kind': 'str'}}},
 ]
 SPECS['C19'] = _C19
 # boltons.setutils.IndexedSet (round 3d, C11): the tombstone / dead-interval bookkeeping, translated by
